@@ -1,5 +1,6 @@
 """C01 — lint verdict is a pure function of its inputs (schedule/order independent)."""
-from . import core, kernel
+from . import core, kernel, aggworld
+import itertools
 
 PID = "C01"
 LEVEL = "proof"
@@ -61,6 +62,8 @@ def run(ctx):
                         "violations": io.get("violations")[:4], "summary": io.get("summary")}, limit=4)
     lost_error(ctx)
     facts(ctx)
+    agg_orders(ctx)
+    paths_and_race(ctx)
     procs_and_concurrency(ctx, [c for c in cases if not c.get("order") and not c.get("perm_input")], impl)
     # property predicate on the implementation alone: all runs of one workspace give the same verdict
     for w, runs in byw.items():
@@ -71,6 +74,138 @@ def run(ctx):
                     ctx.fail("two runs of the same workspace differ in %s" % k, kernel.slim(c), None,
                              {"first": ref.get(k), "this": io.get(k), "order": c.get("order")})
                     break
+
+
+def agg_orders(ctx):
+    """Env.AggPermInvariant sampled on the REAL aggregate rules: workspaces on which the six built-in aggregate rules
+    and a custom one report, linted free-running, with every (<= 4 files) or several random forced completion orders
+    of the per-file workers, and with the input list permuted; the complete reports (all rules) must be identical."""
+    rng = ctx.rng("aggorders")
+    n = 14 if ctx.quick else 150
+    cases = []
+    for w in range(n):
+        files = aggworld.gen_workspace(rng, 2, 4 if ctx.quick else 6)
+        names = [f["name"] for f in files]
+        cases.append(aggworld.case(files, id=len(cases), w=w))
+        perms = list(itertools.permutations(names))
+        if len(perms) > (6 if ctx.quick else 24):
+            perms = rng.sample(perms, 6 if ctx.quick else 24)
+        for order in perms:
+            cases.append(aggworld.case(files, id=len(cases), w=w, order=list(order)))
+        fl = files[:]
+        rng.shuffle(fl)
+        cases.append(aggworld.case(fl, id=len(cases), w=w, perm_input=True))
+    impl = ctx.impl(cases, procs=12)
+    ref = {}
+    for c in cases:
+        i = impl[c["id"]]
+        io = i.get("out") or {}
+        if "panic" in i or "crash" in i or "error" in io:
+            ctx.brk("aggregate-rule workspace could not be linted (harness)", kernel.slim(c), i, None)
+            continue
+        vs = io.get("violations") or []
+        ctx.seen(c, ("agg", c["w"], str(c.get("order")), bool(c.get("perm_input"))) if any(v[5] for v in vs) else None)
+        if c["w"] not in ref:
+            ref[c["w"]] = io
+            for t in sorted({v[1] for v in vs if v[5]}):
+                ctx.count("agg-reporting:" + t)
+            continue
+        for k in ("violations", "notices", "summary", "aggregates"):
+            if io.get(k) != ref[c["w"]].get(k):
+                a, b = ref[c["w"]].get(k), io.get(k)
+                diff = {"only_first": [x for x in a if x not in b], "only_this": [x for x in b if x not in a]} \
+                    if isinstance(a, list) else {"first": a, "this": b}
+                ctx.fail("two runs of the same workspace (real aggregate rules) differ in %s: the verdict depends on the "
+                         "completion order of the per-file workers / the input order" % k, kernel.slim(c), None,
+                         dict(diff, order=c.get("order"), perm_input=c.get("perm_input", False)))
+                break
+
+
+def paths_and_race(ctx):
+    """(a) mixed-version project loaded through the concurrent rules.InputFromPaths: every file must be parsed with the
+    version of its own directory, in every run and under every GOMAXPROCS (a file parsed with another file's version
+    changes its verdict: the shared-state hazard named in the property's anchors);
+    (b) the same operations and a few lints / concurrent lints under Go's race detector (an oracle binary built with
+    -race from the current tree): an unsynchronised access to shared state is exactly an interleaving on which the
+    verdict may differ, and the detector reports it on schedules where the values happened to agree."""
+    import os, subprocess, json as _json, re
+    reps = 3 if ctx.quick else 20
+    cases = [{"id": k, "op": "c01.paths", "n": 60 if ctx.quick else 300, "lint": k == 0} for k in range(reps)]
+    for procs in ("1", "2", "16"):
+        env = dict(os.environ, GOMAXPROCS=procs)
+        res = ctx.impl(cases, env=env, procs=1)
+        for c in cases:
+            o = res[c["id"]].get("out") or {}
+            ctx.seen(dict(c, procs=procs), ("paths", procs, c["id"]))
+            ctx.count("paths:GOMAXPROCS=" + procs)
+            if "error" in o or "crash" in res[c["id"]]:
+                ctx.fail("loading a mixed-version project failed on some run", dict(c, procs=procs), None, res[c["id"]])
+            elif o.get("wrongVersion"):
+                ctx.fail("a file was parsed with the Rego version of another directory (InputFromPaths, concurrent parse)",
+                         dict(c, procs=procs), None, {"wrong": o["wrongVersion"][:5], "count": len(o["wrongVersion"])})
+    # (b) race detector
+    try:
+        extra, _ = core.gated_linter()
+        racebin = core.build_oracle(extra=extra, name="oracle-race", race=True)
+    except core.BuildBroken as e:
+        ctx.notes.append("race-detector build of the oracle failed: %s" % str(e)[-300:])
+        ctx.brk("race-detector oracle build", {"op": "build -race"}, str(e)[-500:], None)
+        return
+    rng = ctx.rng("race")
+    rc = [{"id": 0, "op": "c01.paths", "n": 40 if ctx.quick else 200, "lint": True}]
+    for k in range(2 if ctx.quick else 10):
+        files = aggworld.gen_workspace(rng, 3, 6)
+        rc.append(aggworld.case(files, id=len(rc)))
+        rc.append(dict(aggworld.case(files, id=len(rc)), op="kernel.concurrent", n=3))
+        base = kernel.gen_case(rng, 2, 6)
+        rc.append(dict(base, id=len(rc), enabled=False))
+    data = "".join(_json.dumps(c, ensure_ascii=False) + "\n" for c in rc)
+    env = dict(os.environ, GORACE="halt_on_error=0", GOMAXPROCS="16")
+    p = subprocess.run([racebin], input=data, env=env, stdout=subprocess.PIPE, stderr=subprocess.PIPE, text=True, timeout=1800)
+    answered = sum(1 for l in p.stdout.splitlines() if l.strip().startswith("{"))
+    races = p.stderr.split("WARNING: DATA RACE")[1:]
+    ctx.count("race-detector-ops", len(rc))
+    for c in rc:
+        ctx.seen({"race": c["id"], "op": c["op"]}, ("race", c["id"]))
+    if answered < len(rc):
+        ctx.brk("race-detector run did not answer every operation", {"answered": answered, "of": len(rc)}, p.stderr[-1500:], None)
+    sites = []
+    for r in races:
+        fr = re.findall(r"^\s+(/\S+\.go:\d+)", r, re.M)
+        fn = re.findall(r"^\s{2}(\S+\(\))", r, re.M)
+        key = (fn[0] if fn else "?", fr[0] if fr else "?")
+        if key not in sites:
+            sites.append(key)
+    # only races inside the repository's own code count (not in the harness)
+    own = [s for s in sites if "/verifharness/" not in s[1]]
+    if own:
+        # the Kernel model treats parsing/evaluating one file as a pure function and the merge block as atomic; a data
+        # race breaks that tie. It is reported as a broken correspondence; `search` then hunts for a run whose verdict
+        # actually differs.
+        ctx.brk("no data race on state shared by concurrent workers (purity/atomicity assumed by the Kernel model) — "
+                "Go race detector, %d report(s)" % len(races), {"ops": [c["op"] for c in rc]},
+                {"sites": own[:6], "first_report": races[0][:1800]}, None)
+
+
+def search(ctx):
+    """a proof obligation / the correspondence / the race check broke: look for a run whose verdict differs"""
+    import os
+    reps = 40
+    cases = [{"id": k, "op": "c01.paths", "n": 300, "lint": False} for k in range(reps)]
+    env = dict(os.environ, GOMAXPROCS="16")
+    res = ctx.impl(cases, env=env, procs=4)
+    for c in cases:
+        o = res[c["id"]].get("out") or {}
+        ctx.seen(dict(c, procs="16"), ("search-paths", c["id"]))
+        if o.get("wrongVersion"):
+            ctx.fail("a file was parsed with the Rego version of another directory (InputFromPaths, concurrent parse; "
+                     "found by repeated runs at GOMAXPROCS=16)", dict(c, procs="16"), None,
+                     {"wrong": o["wrongVersion"][:5], "count": len(o["wrongVersion"])})
+            return
+    sub = type(ctx)(ctx.pid, "thorough", ctx.seed + 11)
+    sub.oracle, sub.driver, sub.gated = ctx.oracle, ctx.driver, ctx.gated
+    agg_orders(sub)
+    ctx.failures += sub.failures
 
 
 def lost_error(ctx):
